@@ -49,6 +49,10 @@ def alphabet(rng, addrs):
             ("tc4same", F.df17(5, a, F.me_ident(4, 3, F.callsign_codes("SAME%03d" % (a % 1000))))),
             ("tc3same", F.df17(5, a, F.me_ident(3, 6, F.callsign_codes("SAME%03d" % (a % 1000))))),
             ("df21same", F.df21(0, 0, 0, rng.randrange(8192), F.bds20(F.callsign_codes("SAME%03d" % (a % 1000))), a)),
+            # DF18 (non-transponder ADS-B, TIS-B): the three bits after the format are CF, not a transponder capability -
+            # a DF18 frame of the same address carries none of the parameters and must leave the recorded capability alone
+            ("df18cf2", F.df17(2, a, F.me_raw(0, rng.randrange(1 << 51)), df=18)),
+            ("df18cf6", F.df17(6, a, F.me_raw(23, rng.randrange(1 << 51)), df=18)),
         ]
     return out
 
@@ -82,7 +86,7 @@ class C11(PropBase):
     id = "C11"
     lean_modules = ["SqModel.Props.C11", "SqModel.Proofs.Dispatch", "SqModel.Proofs.Bridge", "SqModel.Proofs.BridgeRat", "SqModel.Proofs.BridgePlane", "SqModel.Proofs.BridgeTable"]
     extractors = ["dispatch", "trans"]
-    rule = ("sequences over an alphabet of 35 well-formed frame kinds (every supported format, both edges of every type-code class, capability 4 and 7, a BDS 2,0 reply) x 2 aircraft (every supported format; altitude codes with Q=1), "
+    rule = ("sequences over an alphabet of 37 well-formed frame kinds (incl. DF18 frames with CF 2 / 6) (every supported format, both edges of every type-code class, capability 4 and 7, a BDS 2,0 reply) x 2 aircraft (every supported format; altitude codes with Q=1), "
             "bounded-exhaustive for length 2 and sampled for length 3 (quick) / exhaustive length 3 (thorough), plus random sequences of "
             "50-300 frames with time steps; -U on/off; dump after every frame; compared with the model and with a reference fold "
             "('latest value of the last frame that carries the parameter, or blank/previous if it carried none') built from the Lean "
